@@ -75,6 +75,10 @@ class _Timeout(Exception):
     pass
 
 
+class _InvalidHistory(Exception):
+    """The history asks the real-process family for something it must not run (a succeeding fg)."""
+
+
 def _alarm(signum, frame):
     raise _Timeout()
 
@@ -775,6 +779,8 @@ def check_history(case):
                 h.apply(op)
         except Mismatch as e:
             return e.failure, h
+        except _InvalidHistory:
+            return None, h
         return None, h
     finally:
         h.close()
@@ -1169,8 +1175,15 @@ class RealHarness(Harness):
             if _proc_state(mj.proc.pid) in (None, "Z", "X"):
                 self._fail("process-gone", "process %d died although its job was only disowned" % mj.proc.pid)
 
+    def _resume(self, op, name):
+        T = self.tables["m"]
+        T.purge()
+        if ref_select(T, list(op["args"]))[0] != "err":
+            raise _InvalidHistory("a succeeding %s would wait for the real child" % name)
+        super()._resume(op, name)
+
     def _op_clean(self, op):
-        raise common.HarnessError("clean_jobs is not part of the real-process family (it hangs up every job)")
+        raise _InvalidHistory("clean_jobs is not part of the real-process family (it hangs up every job)")
 
     _op_respawn = _op_clean
 
